@@ -1,5 +1,7 @@
 """C11 — heart_beat runs once per interval per enabled object; faults stay local (DESIGN §3 C11)."""
+import os
 import vlib
+JOBS = int(os.environ.get("VERIF_JOBS", "16"))   # development runs use 8
 LEVEL = "model_checking"
 SRC = ["h/h_c11.c", "wrap/w_backend.c"]
 
@@ -38,16 +40,22 @@ ASSUME = ["a tick is one call of call_heart_beat() from a backend()-style error 
 
 def run(ck):
     ex = build(ck)
+    P, A, S = ex["h_c11"], ex["h_c11a"], ex["h_c11s"]
+    full = ["--init=13"]          # O0 O1 O2 all enabled with interval 1
     if ck.tier == "quick":
-        ck.explore(ex["h_c11"], ["--depth=3", "--trunc=1"], "d3", budget=2, deadline_s=150)
-        ck.explore(ex["h_c11a"], ["--depth=3", "--trunc=1"], "d3-asan", budget=1, deadline_s=80)
-        ck.explore(ex["h_c11s"], ["--depth=3", "--trunc=1"], "d3-chunk2", budget=1, deadline_s=80)
+        ck.explore(P, ["--depth=3", "--trunc=1"], "d3-b1", budget=1, deadline_s=70, jobs=JOBS)
+        ck.explore(P, ["--depth=3", "--trunc=1"] + full, "d3-b2-full", budget=2, deadline_s=70, jobs=JOBS)
+        ck.explore(A, ["--depth=2", "--trunc=1"], "d2-b1-asan", budget=1, deadline_s=30, jobs=JOBS)
+        ck.explore(S, ["--depth=2", "--trunc=1"], "d2-b2-chunk2-asan", budget=2, deadline_s=60, jobs=JOBS)
     else:
-        ck.explore(ex["h_c11"], ["--depth=4", "--trunc=1"], "d4", budget=2, deadline_s=1100)
-        ck.explore(ex["h_c11"], ["--depth=3", "--trunc=1"], "d3-b3", budget=3, min_budget=3, deadline_s=500)
-        ck.explore(ex["h_c11"], ["--depth=3", "--trunc=60"], "d3-every-insn", budget=1, min_budget=1, deadline_s=200)
-        ck.explore(ex["h_c11a"], ["--depth=3", "--trunc=1"], "d3-asan", budget=2, deadline_s=300)
-        ck.explore(ex["h_c11s"], ["--depth=3", "--trunc=1"], "d3-chunk2", budget=2, deadline_s=300)
+        ck.explore(P, ["--depth=4", "--trunc=1"], "d4-b1", budget=1, deadline_s=500, jobs=JOBS)
+        ck.explore(P, ["--depth=3", "--trunc=1"], "d3-b2", budget=2, min_budget=2, deadline_s=360, jobs=JOBS)
+        ck.explore(P, ["--depth=4", "--trunc=1"] + full, "d4-b2-full", budget=2, min_budget=2, deadline_s=500, jobs=JOBS)
+        ck.explore(P, ["--depth=3", "--trunc=1"] + full, "d3-b3-full", budget=3, min_budget=3, deadline_s=400, jobs=JOBS)
+        ck.explore(P, ["--depth=3", "--trunc=60"], "d3-b1-every-insn", budget=1, min_budget=1, deadline_s=240, jobs=JOBS)
+        ck.explore(A, ["--depth=3", "--trunc=1"], "d3-b1-asan", budget=1, deadline_s=150, jobs=JOBS)
+        ck.explore(S, ["--depth=3", "--trunc=1"], "d3-b1-chunk2-asan", budget=1, deadline_s=150, jobs=JOBS)
+        ck.explore(S, ["--depth=2", "--trunc=1"], "d2-b2-chunk2-asan", budget=2, min_budget=2, deadline_s=100, jobs=JOBS)
     ck.finish(vlib.mc_coverage(ck.parts, RULE), assumptions=ASSUME)
 
 
@@ -58,7 +66,7 @@ def selftest(ck):
     for st, what in ((1, "model ignores set_heart_beat(0) on self"), (2, "model forgets that an error switches the object off"),
                      (3, "logger drops one heart_beat record")):
         ck2 = vlib.Check("C11", "quick", 0, LEVEL)
-        ck2.explore(ex["h_c11a"], ["--depth=2", "--init=13", "--selftest=%d" % st], "selftest%d" % st, budget=1)
+        ck2.explore(ex["h_c11a"], ["--depth=2", "--init=13", "--selftest=%d" % st], "selftest%d" % st, budget=1, jobs=JOBS)
         if not ck2.fails:
             print("SELFTEST-FAILED C11 variant %d (%s) raised nothing" % (st, what)); bad = 1
         else:
